@@ -371,7 +371,7 @@ func c14Chain(p *load.Program, r *core.Report) {
 		if sf == nil || (sf.Name() != "sendExitMessage" && sf.Name() != "RouteSendPID") || len(cc.Args) < 3 {
 			return
 		}
-		to := cc.Args[2]
+		to := resolveLocalCopy(cc.Args[2])
 		ld, ok := to.(*ssa.UnOp)
 		if !ok || ld.Op != token.MUL {
 			return
